@@ -23,6 +23,7 @@
 #include <sys/wait.h>
 #include <sys/epoll.h>
 #include <sys/timerfd.h>
+#include <sys/stat.h>
 #include <pthread.h>
 
 #include "ctx.h"
@@ -124,6 +125,8 @@ int __wrap_timerfd_settime(int fd, int flags, const struct itimerspec *new_value
 static int mod_index(const m_mod_t *m) { for (int i = 0; i < MAXMOD; i++) if (names[i][0] && m && m_mod_name(m) == names[i]) return i; return -1; }
 static int ufd_id(int fd) { for (int i = 0; i < NUFD; i++) if (ufd_r[i] == fd) return i; return -1; }
 static int kind_num(const ev_src_t *s) { return (int)s->type; }
+static unsigned long long path_key(const char *p);
+static long pid_key_of(pid_t pid);
 static unsigned long long src_key(const ev_src_t *s) {
     switch (s->type) {
     case M_SRC_TYPE_PS: return 0;
@@ -131,6 +134,8 @@ static unsigned long long src_key(const ev_src_t *s) {
     case M_SRC_TYPE_TMR: return s->tmr_src.its.ns;
     case M_SRC_TYPE_SGN: return s->sgn_src.sgs.signo;
     case M_SRC_TYPE_TASK: return (unsigned long long)s->task_src.tid.tid;
+    case M_SRC_TYPE_PATH: return path_key(s->path_src.pt.path);
+    case M_SRC_TYPE_PID: return (unsigned long long)pid_key_of(s->pid_src.pid.pid);
     default: return 0;
     }
 }
@@ -227,6 +232,8 @@ static void handler_common(m_mod_t *self, const m_queue_t *const evts, int h) {
         case M_SRC_TYPE_TMR: key = (long)e->tmr_evt->ns; break;
         case M_SRC_TYPE_SGN: key = e->sgn_evt->signo; break;
         case M_SRC_TYPE_TASK: key = e->task_evt->tid; break;
+        case M_SRC_TYPE_PATH: key = (long)path_key(e->path_evt->path); break;
+        case M_SRC_TYPE_PID: key = pid_key_of(e->pid_evt->pid); break;
         default: break;
         }
         len += snprintf(line + len, sizeof(line) - len, " %ld:%ld:%ld:%ld:%ld:%ld:%lu", kind, key, topic, data, sender, sys, (unsigned long)(uintptr_t)e->userdata);
@@ -280,8 +287,28 @@ static void *get_payload(long d) {
     if (!payload[d]) { payload[d] = malloc(8); }
     return payload[d];
 }
-static char pathbuf[64][32];
-static const char *path_str(unsigned long long key) { snprintf(pathbuf[key % 64], 32, "/tmp/vfp%03llu", key % 1000); return pathbuf[key % 64]; }
+/* path sources watch real files, created by the driver process in a scratch directory of its own (removed at exit) */
+static char pathdir[48];
+static char pathbuf[64][80];
+static const char *path_str(unsigned long long key) { snprintf(pathbuf[key % 64], 80, "%s/%llu", pathdir, key % 10); return pathbuf[key % 64]; }
+static unsigned long long path_key(const char *p) { const char *q = p ? strrchr(p, '/') : NULL; return q ? strtoull(q + 1, NULL, 10) : 0; }
+/* pid sources watch real processes: one sleeping child per (module, key), killed when the script fires it */
+#include <sys/prctl.h>
+#define NPIDKEY 4
+static pid_t pid_child[MAXMOD][NPIDKEY]; static bool pid_dead[MAXMOD][NPIDKEY];
+/* mode 0: look up; 1: fork a sleeper if the slot never had one; 2 (registration): also replace a dead one
+   (a dead process would make a new pidfd readable at once) */
+static pid_t pid_of(long m, unsigned long long key, int mode) {
+    if (m < 0 || m >= MAXMOD || key == 0 || key >= NPIDKEY) return 0;
+    if (mode == 2 && pid_child[m][key] && pid_dead[m][key]) { waitpid(pid_child[m][key], NULL, 0); pid_child[m][key] = 0; pid_dead[m][key] = false; }
+    if (mode >= 1 && !pid_child[m][key]) {
+        pid_t c = fork();
+        if (c == 0) { prctl(PR_SET_PDEATHSIG, SIGKILL); for (;;) pause(); }
+        pid_child[m][key] = c;
+    }
+    return pid_child[m][key];
+}
+static long pid_key_of(pid_t pid) { for (int m = 0; m < MAXMOD; m++) for (int k = 1; k < NPIDKEY; k++) if (pid_child[m][k] == pid) return k; return 0; }
 
 /* white-box: find the library's source object (for firing) */
 static ev_src_t *find_lib_src(m_mod_t *mod, m_src_types t, unsigned long long key) {
@@ -290,9 +317,14 @@ static ev_src_t *find_lib_src(m_mod_t *mod, m_src_types t, unsigned long long ke
     case M_SRC_TYPE_TMR: k.tmr_src.its.ns = key; break;
     case M_SRC_TYPE_SGN: k.sgn_src.sgs.signo = (unsigned)key; break;
     case M_SRC_TYPE_TASK: k.task_src.tid.tid = (int)key; break;
-    default: return NULL;
+    case M_SRC_TYPE_PATH: k.path_src.pt.path = path_str(key); break;
+    default: return NULL;      /* pid sources: find_pid_src (needs the module index) */
     }
     return m_bst_find(mod->srcs[t], &k);
+}
+static ev_src_t *find_pid_src(int m, unsigned long long key) {
+    ev_src_t k; memset(&k, 0, sizeof(k)); k.pid_src.pid.pid = pid_of(m, key, 0);
+    return k.pid_src.pid.pid ? m_bst_find(modptr[m]->srcs[M_SRC_TYPE_PID], &k) : NULL;
 }
 static int closed_ufds(void) { int n = 0; for (int i = 0; i < NUFD; i++) n += ufd_closed[i]; return n; }
 static void wait_readable(int fd) { struct pollfd p = { fd, POLLIN, 0 }; poll(&p, 1, 2000); }
@@ -302,9 +334,27 @@ static void do_env(call_t *c) {
     if (!strcmp(o, "fdwrite")) { long u = L(c->tok[1]); if (u >= 0 && u < NUFD && !ufd_closed[u]) { char x = 1; if (write(ufd_w[u], &x, 1) != 1) {} } }
     else if (!strcmp(o, "fire")) {
         int m = (int)L(c->tok[1]); m_src_types t = ktype(c->tok[2]); unsigned long long key = U(c->tok[3]);
+        if (t == M_SRC_TYPE_PATH) {
+            /* the file is modified (whoever watches it): every armed watch of that path gets one inotify event */
+            if (key == 0 || key > 9) return;
+            int fd = open(path_str(key), O_WRONLY | O_APPEND); if (fd >= 0) { char x = 'x'; if (write(fd, &x, 1) != 1) {} __real_close(fd); }
+            for (int m2 = 0; m2 < MAXMOD; m2++) {
+                if (!modptr[m2] || m_mod_is(modptr[m2], M_MOD_ZOMBIE)) continue;
+                ev_src_t *s2 = find_lib_src(modptr[m2], t, key);
+                if (s2 && s2->ev) wait_readable(s2->path_src.f.fd);
+            }
+            return;
+        }
         if (m < 0 || m >= MAXMOD) return;
         if (!modptr[m] || m_mod_is(modptr[m], M_MOD_ZOMBIE)) {
             if (t == M_SRC_TYPE_TASK) { int g = gate_of(m, key); for (int i = 0; i < 20 && task_waiting[g] == 0; i++) usleep(1000); if (task_waiting[g] > 0) { __atomic_sub_fetch(&task_waiting[g], 1, __ATOMIC_SEQ_CST); sem_post(&task_gate[g]); { struct timespec t0, t1; clock_gettime(CLOCK_MONOTONIC, &t0); do { usleep(50000); clock_gettime(CLOCK_MONOTONIC, &t1); } while (t1.tv_sec - t0.tv_sec < 8); }; } }
+            return;
+        }
+        if (t == M_SRC_TYPE_PID) {                      /* the watched process dies */
+            ev_src_t *ps = find_pid_src(m, key);
+            if (!ps || !ps->ev || pid_dead[m][key % NPIDKEY]) return;
+            kill(pid_of(m, key, 0), SIGKILL); pid_dead[m][key % NPIDKEY] = true;
+            wait_readable(ps->pid_src.f.fd);
             return;
         }
         ev_src_t *s = find_lib_src(modptr[m], t, key);
@@ -455,7 +505,10 @@ static int exec_call(proc_t *pr, int idx, m_evt_t **cur, int ncur) {
         case M_SRC_TYPE_TMR: { m_src_tmr_t its = { CLOCK_MONOTONIC, key }; r = m_mod_src_register_tmr(H(a), &its, fl, up); break; }
         case M_SRC_TYPE_SGN: { m_src_sgn_t sg = { (unsigned)key }; r = m_mod_src_register_sgn(H(a), &sg, fl, up); break; }
         case M_SRC_TYPE_PATH: { m_src_path_t pt = { key ? path_str(key) : "", 2 }; r = m_mod_src_register_path(H(a), &pt, fl, up); break; }
-        case M_SRC_TYPE_PID: { m_src_pid_t pd = { (pid_t)key, 0 }; r = m_mod_src_register_pid(H(a), &pd, fl, up); break; }
+        case M_SRC_TYPE_PID: {
+            /* a dead child is replaced unless its source is still registered (then the key is simply present) */
+            bool present = a >= 0 && a < MAXMOD && modptr[a] && !m_mod_is(modptr[a], M_MOD_ZOMBIE) && find_pid_src((int)a, key);
+            m_src_pid_t pd = { pid_of(a, key, present ? 1 : 2), 0 }; r = m_mod_src_register_pid(H(a), &pd, fl, up); break; }
         case M_SRC_TYPE_TASK: { m_src_task_t tk = { (int)key, key ? task_fns[gate_of(a, key)] : NULL }; r = m_mod_src_register_task(H(a), &tk, fl, up);
             /* a RUNNING module starts the task thread at once: wait until its body is parked at the gate, so that what follows is ordered after it */
             if (r == 0 && H(a) && m_mod_is(H(a), M_MOD_RUNNING)) for (int i = 0; i < 500 && task_waiting[gate_of(a, key)] == 0; i++) usleep(1000);
@@ -472,7 +525,7 @@ static int exec_call(proc_t *pr, int idx, m_evt_t **cur, int ncur) {
         case M_SRC_TYPE_TMR: { m_src_tmr_t its = { CLOCK_MONOTONIC, key }; r = m_mod_src_deregister_tmr(H(a), &its); break; }
         case M_SRC_TYPE_SGN: { m_src_sgn_t sg = { (unsigned)key }; r = m_mod_src_deregister_sgn(H(a), &sg); break; }
         case M_SRC_TYPE_PATH: { m_src_path_t pt = { key ? path_str(key) : "", 2 }; r = m_mod_src_deregister_path(H(a), &pt); break; }
-        case M_SRC_TYPE_PID: { m_src_pid_t pd = { (pid_t)key, 0 }; r = m_mod_src_deregister_pid(H(a), &pd); break; }
+        case M_SRC_TYPE_PID: { m_src_pid_t pd = { pid_of(a, key, 1), 0 }; r = m_mod_src_deregister_pid(H(a), &pd); break; }
         case M_SRC_TYPE_TASK: { m_src_task_t tk = { (int)key, task_fn }; r = m_mod_src_deregister_task(H(a), &tk); break; }
         case M_SRC_TYPE_THRESH: { m_src_thresh_t th = { key, 0 }; r = m_mod_src_deregister_thresh(H(a), &th); break; }
         default: break;
@@ -556,6 +609,8 @@ static bool too_long;
 int main(int argc, char **argv) {
     setvbuf(stdout, NULL, _IOLBF, 0);          /* before any output: a case that crashes keeps the lines it printed */
     if (argc >= 2 && !strcmp(argv[1], "--params")) { print_params(); return 0; }
+    snprintf(pathdir, sizeof(pathdir), "/tmp/vfp.%d", (int)getpid()); mkdir(pathdir, 0700);
+    for (int k = 1; k < 10; k++) { int fd = open(path_str(k), O_CREAT | O_WRONLY | O_TRUNC, 0600); if (fd >= 0) __real_close(fd); }
     if (argc < 2) { fprintf(stderr, "usage: %s script | --params\n", argv[0]); return 2; }
     FILE *f = fopen(argv[1], "r"); if (!f) { perror("script"); return 2; }
     procs = calloc(MAXPROC, sizeof(proc_t));
@@ -579,7 +634,10 @@ int main(int argc, char **argv) {
             if (pid == 0) {
                 if (ef) dup2(fileno(ef), 2);
                 for (int g = 0; g < NGATE; g++) { sem_init(&task_gate[g], 0, 0); task_waiting[g] = 0; }
-                setvbuf(stdout, NULL, _IOLBF, 0); run_case(); fflush(stdout); _exit(0);
+                memset(pid_child, 0, sizeof(pid_child)); memset(pid_dead, 0, sizeof(pid_dead));
+                setvbuf(stdout, NULL, _IOLBF, 0); run_case(); fflush(stdout);
+                for (int m = 0; m < MAXMOD; m++) for (int k = 1; k < NPIDKEY; k++) if (pid_child[m][k]) kill(pid_child[m][k], SIGKILL);
+                _exit(0);
             }
             int st = 0; waitpid(pid, &st, 0);
             char summary[160] = "";
@@ -620,5 +678,7 @@ int main(int argc, char **argv) {
             for (int i = 0; i < c->nt; i++) snprintf(c->tok[i], sizeof(c->tok[i]), "%s", tok[i]);
         }
     }
+    for (int k = 1; k < 10; k++) unlink(path_str(k));
+    rmdir(pathdir);
     return 0;
 }
